@@ -89,6 +89,9 @@ const T = {
   dcIdentOpts: (i) => `const uo${i} = { inheritAttrs: false };\nconst DI${i} = defineComponent((props: { a: string }) => null, uo${i});\n__out.k${i} = () => 1;`,
   dcEmits:   (i) => `const DE${i} = defineComponent((props: { a: string }, ctx: SetupContext<{ (e: 'x'): void }>) => () => <i />);\n__out.k${i} = () => 1;`,
   dcDefault: (i) => `const DD${i} = defineComponent((props: { a?: string } = { a: 'z' }) => null);\n__out.k${i} = () => 1;`,
+  dcDynDefault: (i) => `const DY${i} = defineComponent((props: { a?: string } = uo as any) => null);\n__out.k${i} = () => 1;`,
+  dcSpreadDefault: (i) => `const DS${i} = defineComponent((props: { a?: string } = { ...(uo as any) }) => null, { inheritAttrs: false });\n__out.k${i} = () => 1;`,
+  dcOwnPropsDynDefault: (i) => `const DW${i} = defineComponent((props: { a?: string } = uo as any) => null, { props: { a: String } });\n__out.k${i} = () => 1;`,
   localDc:   (i) => `function ldc${i}() { const defineComponent = (s: any, o?: any) => [s, o]; const Loc = defineComponent((props: { a: string }) => null); return Loc; }\n__out.k${i} = () => ldc${i}().length;`,
   tsDecl:    (i) => `type TA${i} = { x: number };\ninterface TI${i} { y: string }\n__out.k${i} = () => 1;`,
   asExpr:    (i) => `const ae${i} = (x as any) satisfies unknown;\n__out.k${i} = () => ae${i};`,
@@ -98,7 +101,7 @@ const T = {
   callDc:    (i) => `defineComponent((props: { q: boolean }) => () => null);\n__out.k${i} = () => 1;`,
   exportDc:  (i) => `export const ED${i} = defineComponent((props: { a: string }) => null, { name: 'Own' });\n__out.k${i} = () => 1;`,
 };
-const TS_PRELUDE = "import { defineComponent, SetupContext } from 'vue';\n";
+const TS_PRELUDE = "import { defineComponent, SetupContext } from 'vue';\nconst uo = __env.bound;\n";
 
 function itemSrc(item, i) {
   if (item.t) return T[item.t](i);
@@ -107,7 +110,7 @@ function itemSrc(item, i) {
 }
 function itemKey(item) { return item.t ? 'T:' + item.t : item.d ? 'D:' + item.d : `${item.k}∘${item.l}`; }
 const T_JSX = new Set(['dcProps', 'dcEmits', 'typedArrow', 'genericArrow', 'asyncTyped']);
-const T_DC = new Set(['dcProps', 'dcIface', 'dcIdentOpts', 'dcEmits', 'dcDefault', 'callDc', 'exportDc']);
+const T_DC = new Set(['dcProps', 'dcIface', 'dcIdentOpts', 'dcEmits', 'dcDefault', 'dcDynDefault', 'dcSpreadDefault', 'dcOwnPropsDynDefault', 'callDc', 'exportDc']);
 function itemHasJsx(item) { return item.t ? T_JSX.has(item.t) : item.d ? !!D[item.d].jsx : true; }
 function itemAugmentable(item) { return !!item.t && T_DC.has(item.t); }
 
